@@ -674,7 +674,9 @@ package xmpp
 //@   ensures [C03.success.auth]    err == nil ==> res != nil && res.err == nil && count(AuthConfirmed) == old(count(AuthConfirmed)) + 1 && count(Restarted) > old(count(Restarted)) && atlast(AuthConfirmed) < atlast(Restarted)
 //@   ensures [C03.success.tls,C04.success.tls] err == nil ==> (c.config.Insecure || last(SecureAsked, 1))
 //@   ensures [C03.success.session] (err == nil && count(ResumedOK) == old(count(ResumedOK))) ==> count(Bound) == old(count(Bound)) + 1 && atlast(Restarted) < atlast(Bound) && (!stanza.sessionOptional(res.Features) ==> count(SessionOpened) == old(count(SessionOpened)) + 1 && atlast(Bound) < atlast(SessionOpened)) && ((stanza.smOffered(res.Features) && old(c.config.StreamManagementEnable)) ==> count(SMEnabledOK) == old(count(SMEnabledOK)) + 1 && atlast(Bound) < atlast(SMEnabledOK))
-//@   ensures [C11.resumed.nobind,C03.success.resumed] (err == nil && count(ResumedOK) > old(count(ResumedOK))) ==> count(ResumedOK) == old(count(ResumedOK)) + 1 && count(Bound) == old(count(Bound)) && count(SessionOpened) == old(count(SessionOpened)) && count(SMEnabledOK) == old(count(SMEnabledOK)) && atlast(Restarted) < atlast(ResumedOK) && old(c.Session) != nil && res == old(c.Session) && res.BindJid == old(c.Session.BindJid)
+//@   ensures [C11.resumed.nobind,C03.success.resumed] (err == nil && count(ResumedOK) > old(count(ResumedOK))) ==> count(ResumedOK) == old(count(ResumedOK)) + 1 && count(Bound) == old(count(Bound)) && count(SessionOpened) == old(count(SessionOpened)) && count(SMEnabledOK) == old(count(SMEnabledOK))
+//@   ensures [C03.success.resumed.order] (err == nil && count(ResumedOK) > old(count(ResumedOK))) ==> atlast(Restarted) < atlast(ResumedOK)
+//@   ensures [C11.resumed.identity] (err == nil && count(ResumedOK) > old(count(ResumedOK)) && old(c.Session) != nil) ==> res == old(c.Session) && res.BindJid == old(c.Session.BindJid) && res.SMState.Id == old(c.Session.SMState.Id) && res.SMState.UnAckQueue == old(c.Session.SMState.UnAckQueue) && res.SMState.Inbound == old(c.Session.SMState.Inbound)
 //@   ensures [C03.failure] err != nil ==> typeof(err) == ConnError || res != nil
 //@   ensures res != nil ==> res.transport == c.transport && (old(c.Session) != nil ==> res == old(c.Session)) && (old(c.Session) == nil ==> fresh(res))
 //@   assigns c.Session.err, c.Session.Features, c.Session.TlsEnabled, c.Session.StreamId, c.Session.SMState, c.Session.BindJid, c.Session.lastPacketId, c.config.StreamManagementEnable
